@@ -690,9 +690,13 @@ def rtstatic(ctx, cases_override=None):
         for key in r.sample(keys, min(len(keys), 3 if not thorough else 8)):
             cls = key.split("/")[0]
             where = r.choice([("solver",), ("precond",)] + ([("precond", "relax"), ("precond", "coarsening")] if cls == "amg" else []))
-            if cls in ("dummy",) and where == ("precond",): where = ("solver",)
+            # (class = dummy included: its empty params are the only place where keys below a dummy node are checked; seeded C14-7)
             k = r.choice(["bogus", "tolerance", "dampin"])
             add(key, rt_tree(r, key, extra=where + (k,)), "unknown", k)
+        # stray keys next to class = dummy (e.g. left behind when an AMG configuration is switched to dummy), always present
+        for key in [k for k in keys if k.split("/")[0] == "dummy"][:2]:
+            k = r.choice(["coarse_enough", "relax", "bogus"])
+            add(key, rt_tree(r, key, extra=("precond", k)), "unknown", k)
         # invalid enumeration text in every dispatch slot
         for key in r.sample(keys, min(len(keys), 2 if not thorough else 6)):
             cls = key.split("/")[0]
